@@ -83,7 +83,7 @@ func messageInfoFamily() firstUse {
 			}},
 			{"methods.Unmarshal", func(st any) string {
 				m := st.(*impl.MessageInfo).MessageOf(&testpb.TestAllTypes{})
-				_, err := m.ProtoMethods().Unmarshal(protoiface.UnmarshalInput{Message: m, Buf: want, Resolver: protoregistry.GlobalTypes})
+				_, err := m.ProtoMethods().Unmarshal(protoiface.UnmarshalInput{Message: m, Buf: want, Resolver: protoregistry.GlobalTypes, Depth: 100})
 				return fmt.Sprint(err, m.Get(md.Fields().ByName("optional_int32")).Int(), m.Get(md.Fields().ByName("repeated_string")).List().Len())
 			}},
 			{"methods.Size", func(st any) string {
